@@ -159,6 +159,8 @@ def run(ctx):
         return
     rs = ctx.rule("R1", "CNF converters: the clause set is equisatisfiable with the input model-by-model (per skeleton)")
     shapes = proc.boolean_shapes()
+    if ctx.tier == "thorough":
+        shapes = [s_ for s_ in proc.in_contexts(shapes, limit=60) if "forall" not in repr(s_.t) and "exists" not in repr(s_.t)]
     a, b, c = S("a"), S("b"), S("c")
     shared = ("Or", a, b)
     shapes += [Shape(("And", shared, ("Iff", shared, c))), Shape(("Or", ("And", a, b), ("And", ("Not", a), c))),
